@@ -68,7 +68,7 @@ CHECKS = {
         note='IP text canonicalisation delegated to the generator (inet_pton/ntop). ' + TB),
     'C01': dict(
         level='model_checking',
-        text='TLC explores QueueCore (the queue at the grain of gevent yield points: attempts, retry/exhaustion, index-log vs in-place delivered marks, scheduler, load, announcements, flush) and proves stays-stored / removed-only-when-settled / failed-are-bounced; the real Queue is run under virtual time over the dict, pickling-dict, disk, redis-double and cloud-double backends, DFS over relay outcome histories (mapping, sequence, raised Transient/Permanent/other, retry exhaustion) and over schedules of a yielding store, every run drained, and TLC validates every trace against the QueueObs observer (conservation at every quiescent point, final disposition at the end). Every execution inside the model\'s vocabulary is in addition validated event by event as a behaviour of QueueCore itself (Trace_QueueCore: storage calls, attempts, back-off decisions bound to model actions, silent scheduler steps, timetable / queued ids / active ids compared at every quiescent point; drift is reported, the model\'s own viol on a real execution is a violation).',
+        text='TLC explores QueueCore (the queue at the grain of gevent yield points: attempts, retry/exhaustion, index-log vs in-place delivered marks, scheduler, load, announcements, flush) and proves stays-stored / removed-only-when-settled / failed-are-bounced; the real Queue is run under virtual time over the dict, pickling-dict, disk, redis-double and cloud-double backends, DFS over relay outcome histories (mapping, sequence, raised Transient/Permanent/other, retry exhaustion) and over schedules of a yielding store, every run drained, and TLC validates every trace against the QueueObs observer (conservation at every quiescent point, final disposition at the end). Executions with bounded store / relay pools are also validated as behaviours of QueuePools, the resource model checked for cyclic waits (Trace_QueuePoolsD: slots held at every quiescent point). Every execution inside the model\'s vocabulary is in addition validated event by event as a behaviour of QueueCore itself (Trace_QueueCore: storage calls, attempts, back-off decisions bound to model actions, silent scheduler steps, timetable / queued ids / active ids compared at every quiescent point; drift is reported, the model\'s own viol on a real execution is a violation).',
         design='5/C01', technique='TLA+ QueueCore model (TLC exhaustive, deviation switches) + QueueObs observer: TLC trace validation of real Queue executions explored by stateless DFS over gated collaborators under virtual time; TLC validation of the same executions against the QueueCore design model',
         note='Relay outcomes come from a contract-conforming scripted relay; redis and object store are doubles; schedules are explored to a depth bound. ' + TB),
     'C03': dict(
@@ -78,7 +78,7 @@ CHECKS = {
         note='Relay outcomes come from a contract-conforming scripted relay; redis and object store are doubles; schedules are explored to a depth bound. ' + TB),
     'C12': dict(
         level='model_checking',
-        text='QueueCore carries the timetable, due times and flush; TLC checks never-early and known-at-rest on it (and finds the recorded stale-entry finding D23 when announcements are duplicated). The real started Queue runs under virtual time (every gevent Timeout and the queue clock virtualised); DFS over enqueue / completion / timer expiry / flush / announcement orders with bounded and unbounded pools; TLC validates NeverEarly, Due, Known, FlushReturns, FlushAttemptsAll, EnqueueReturns at every quiescent point. Every execution inside the model\'s vocabulary is in addition validated event by event as a behaviour of QueueCore itself (Trace_QueueCore: storage calls, attempts, back-off decisions bound to model actions, silent scheduler steps, timetable / queued ids / active ids compared at every quiescent point; drift is reported, the model\'s own viol on a real execution is a violation).',
+        text='QueueCore carries the timetable, due times and flush; TLC checks never-early and known-at-rest on it (and finds the recorded stale-entry finding D23 when announcements are duplicated). The real started Queue runs under virtual time (every gevent Timeout and the queue clock virtualised); DFS over enqueue / completion / timer expiry / flush / announcement orders with bounded and unbounded pools; TLC validates NeverEarly, Due, Known, FlushReturns, FlushAttemptsAll, EnqueueReturns at every quiescent point. Executions with flush() are also validated as behaviours of QueueFlush (Trace_QueueFlushD: a fetch before the stored time must be explained by a flush() that found the message waiting; the model\'s own early / forgotten flag on a real execution is a violation) and executions with bounded pools as behaviours of QueuePools (Trace_QueuePoolsD: slots held at every quiescent point). Every execution inside the model\'s vocabulary is in addition validated event by event as a behaviour of QueueCore itself (Trace_QueueCore: storage calls, attempts, back-off decisions bound to model actions, silent scheduler steps, timetable / queued ids / active ids compared at every quiescent point; drift is reported, the model\'s own viol on a real execution is a violation).',
         design='5/C12', technique='TLA+ QueueCore model (TLC exhaustive, deviation switches) + QueueObs observer: TLC trace validation of real Queue executions explored by stateless DFS over gated collaborators under virtual time; TLC validation of the same executions against the QueueCore design model',
         note='Relay outcomes come from a contract-conforming scripted relay; redis and object store are doubles; schedules are explored to a depth bound. ' + TB),
     'C13': dict(
@@ -154,7 +154,7 @@ CHECKS = {
              'carries the marker of its own envelope, every attempt returns, one message at a time per connection, RSET after a '
              'failed transaction; downstreams that hang up on idle connections, send reply lines nobody asked for, or answer RSET late are part of the schedules. '
              'BlockingDeque.tla (the request queue) is validated step by step against random programs on the real class, and the SMTP / LMTP pool executions '
-             'are validated as behaviours of RelayPool.tla itself (Trace_PoolD: silent client steps, len(pool) and len(queue) compared at quiescent points).',
+             'and the HTTP relay\'s pool executions are validated as behaviours of RelayPool.tla itself (Trace_PoolD: silent client steps, len(pool), len(queue) and - for HTTP - the connections held compared at quiescent points).',
         design='5/C19', technique='TLA+ pool model (TLC exhaustive, deviation switch) + TLC trace validation of real pool executions',
         note='In-memory scripted SMTP/LMTP downstream; loopback HTTP peer for the HttpRelay pool (real sockets: virtual time moves only while a request is stuck on a peer that stalls on purpose). ' + TB),
     'C02': dict(
